@@ -2,7 +2,8 @@
   C02 — STFT coefficients equal their documented definition: the index-level content.
 
   * framing of `compute_full` (count, documented sample ranges, symmetric reflection, every frame
-    exactly `frame_length` long)         — model `PdsVerif/Model/Stft.lean`
+    exactly `frame_length` long) for EVERY frame length and shift, also `frame_shift > frame_length`
+                                          — model `PdsVerif/Model/Stft.lean`
   * the half-spectrum segment walk of `_compute_frame` pairs tap `j` of a truncated response that
     starts at bin `start` with full-spectrum bin `(start + j) mod D`, for every DFT size `D`
     (odd, even, every residue mod 4), every start and every length — model `Model/Walk.lean`
@@ -28,18 +29,18 @@ theorem full_short (c : Cfg) (x : List α) (h : x.length < c.L / 2 + 1) : full c
   simp [full, h]
 
 /-- `(N + S/2) / S` frames otherwise -/
-theorem full_count (c : Cfg) (w : WF c) (x : List α) (h : c.L / 2 + 1 ≤ x.length) :
+theorem full_count (c : Cfg) (x : List α) (h : c.L / 2 + 1 ≤ x.length) :
     (full c x).length = (x.length + c.S / 2) / c.S := by
-  rw [full_eq c w]; have : ¬ x.length < c.L / 2 + 1 := by omega
+  rw [full_eq' c]; have : ¬ x.length < c.L / 2 + 1 := by omega
   simp [framesFrom, numFull, this]
 
 /-- sample `i` of frame `k` is signal position `k·S + i − pad_left`, symmetric reflection beyond
 the ends (`symIdx` = `np.pad(…, 'symmetric')`) -/
-theorem full_frame_spec (c : Cfg) (w : WF c) (x : List α) (k i : Nat)
+theorem full_frame_spec (c : Cfg) (x : List α) (k i : Nat)
     (hk : k < (full c x).length) (hi : i < c.L) :
     ((full c x)[k]).getD i default
       = x.getD (symIdx x.length (((k * c.S : Nat) : Int) + i - (padL c : Int))) default := by
-  have h := full_eq c w x
+  have h := full_eq' c x
   have hk' : k < (framesFrom c (ext x) 0 (numFull c x.length)).length := by rw [← h]; exact hk
   have : (full c x)[k] = (framesFrom c (ext x) 0 (numFull c x.length))[k] := by simp [h]
   rw [this]
@@ -49,23 +50,22 @@ theorem full_frame_spec (c : Cfg) (w : WF c) (x : List α) (k i : Nat)
   congr 2; omega
 
 /-- every frame has exactly `frame_length` samples -/
-theorem full_frames_length (c : Cfg) (w : WF c) (x : List α) : ∀ fr ∈ full c x, fr.length = c.L := by
-  rw [full_eq c w]
+theorem full_frames_length (c : Cfg) (x : List α) : ∀ fr ∈ full c x, fr.length = c.L := by
+  rw [full_eq' c]
   intro fr h
   simp only [framesFrom, frameAt, List.mem_map] at h
   obtain ⟨k, _, rfl⟩ := h
   simp
 
 /-- the documented frame origins: causal `k·S`; centred `k·S − (L+1)/2 + 1`;
-Kaldi `k·S − L/2 + S/2` -/
-theorem frame_origin (c : Cfg) (w : WF c) (k : Nat) :
+Kaldi `k·S − L/2 + S/2` (the Kaldi left padding `L/2 − S/2` must not be negative: `np.pad` rejects that) -/
+theorem frame_origin (c : Cfg) (hL : 0 < c.L) (hk : c.kaldi = true → c.S / 2 ≤ c.L / 2) (k : Nat) :
     ((k * c.S : Nat) : Int) - (padL c : Int) =
       if !c.centered then ((k * c.S : Nat) : Int)
       else if c.kaldi then ((k * c.S : Nat) : Int) - (c.L / 2 : Nat) + (c.S / 2 : Nat)
       else ((k * c.S : Nat) : Int) - ((c.L + 1) / 2 : Nat) + 1 := by
-  have := w.hS; have := w.hSL
   unfold padL
-  cases c.centered <;> cases c.kaldi <;> simp <;> omega
+  cases c.centered <;> cases hkk : c.kaldi <;> simp [hkk] at hk ⊢ <;> omega
 
 /-- inside the signal there is no reflection: the frame is the plain slice -/
 theorem symIdx_inside (n : Nat) (p : Int) (h0 : 0 ≤ p) (h1 : p < n) : symIdx n p = p.toNat :=
